@@ -112,6 +112,10 @@ func GenConfig(ch choose.Chooser, o GenOpts) Config {
 			p.Seat = -1
 		}
 		p.Chips = genStack(ch, bb, o.ShortStacks)
+		if c.Blind.Ante > 0 && p.Chips <= 3*bb+1 && choose.Chance(ch, "cfg.stack.ante", 35) {
+			// a stack the ante alone empties: the player is all-in before the blinds are asked for
+			p.Chips = 1 + int64(ch.Int("cfg.stack.ante.v", 0, int(c.Blind.Ante)-1))
+		}
 		if inCount >= o.MinPlayersAtStart && choose.Chance(ch, "cfg.sitout", o.SitOutPct) {
 			p.Join = false
 		} else {
